@@ -54,7 +54,7 @@ var c08loggers []*slog.Entry
 type c08world struct {
 	rec    *lockedRec
 	shared []slog.Attr // shared group attributes whose member order is snapshotted
-	calls  [][]func() // per thread, the calls
+	calls  [][]func()  // per thread, the calls
 	snap   func() string
 }
 
@@ -177,8 +177,12 @@ func c08scenarios() []c08scenario {
 				for i := 0; i < cp; i++ {
 					t, i := t, i
 					l := ls[t%3]
+					msg := fmt.Sprintf("s5 thread %d call %d", t, i)
+					if (t+i)%2 == 0 {
+						msg += "\nwith a second line\n" // multi-line and single-line records alternate on the recycled contexts
+					}
 					cs = append(cs, func() {
-						l.Info(fmt.Sprintf("s5 thread %d call %d", t, i), ya("b", t), ya("a", "x y"), slog.NewGroupedAttr("g", ya("m", 1)))
+						l.Info(msg, ya("b", t), ya("a", "x y"), slog.NewGroupedAttr("g", ya("m", 1)), slog.NewGroupedAttr("zz"))
 					})
 				}
 				w.calls = append(w.calls, cs)
@@ -189,14 +193,26 @@ func c08scenarios() []c08scenario {
 			w := &c08world{rec: &lockedRec{}}
 			slog.AddFlags(slog.Lcaller)
 			ls := []*slog.Entry{c08logger("s6c", "color", w.rec), c08logger("s6j", "json", w.rec)}
+			// every thread logs from its own call site (distinct source lines), so that a
+			// caller attribution mixed up between threads is visible in the record
+			sites := []func(l *slog.Entry, t, i int){
+				func(l *slog.Entry, t, i int) {
+					l.Error(fmt.Sprintf("s6 thread %d call %d\nsecond line\nthird", t, i), ya("err", errors.New("boom")), ya("n", t))
+				},
+				func(l *slog.Entry, t, i int) {
+					l.Warn(fmt.Sprintf("s6 thread %d call %d\nsecond line\nthird", t, i), ya("err", errors.New("boom")), ya("n", t))
+				},
+				func(l *slog.Entry, t, i int) {
+					l.InfoContext(bg, fmt.Sprintf("s6 thread %d call %d\nsecond line\nthird", t, i), ya("err", errors.New("boom")), ya("n", t))
+				},
+			}
 			for t := 0; t < th; t++ {
 				var cs []func()
 				for i := 0; i < cp; i++ {
 					t, i := t, i
 					l := ls[t%2]
-					cs = append(cs, func() {
-						l.Error(fmt.Sprintf("s6 thread %d call %d\nsecond line\nthird", t, i), ya("err", errors.New("boom")), ya("n", t))
-					})
+					site := sites[t%3]
+					cs = append(cs, func() { site(l, t, i) })
 				}
 				w.calls = append(w.calls, cs)
 			}
@@ -300,11 +316,11 @@ func c08prepare() {
 }
 
 type c08case struct {
-	Scenario int   `json:"scenario"`
-	Threads  int   `json:"threads"`
-	Calls    int   `json:"calls_per_thread"`
-	Bound    int   `json:"preemption_bound"`
-	Choices  []int `json:"choices,omitempty"`
+	Scenario int    `json:"scenario"`
+	Threads  int    `json:"threads"`
+	Calls    int    `json:"calls_per_thread"`
+	Bound    int    `json:"preemption_bound"`
+	Choices  []int  `json:"choices,omitempty"`
 	Kind     string `json:"kind"` // schedule | sequential-invariant | race
 }
 
@@ -475,7 +491,9 @@ func c08run(c *Ctx) {
 	dense := strings.Contains(os.Getenv("VERIF_BIN"), "dense")
 	if dense {
 		bound = 1
-		shapes = [][2]int{{2, 1}}
+		if !c.Thorough() {
+			shapes = [][2]int{{2, 1}}
+		}
 	}
 	c.Info("pass", pass)
 	// units of work: (scenario, shape); the DFS of one unit is sharded by level-1 subtrees
